@@ -1,5 +1,6 @@
 """C15 - evaluation is total over field values (partial)."""
 from . import evalrules as ER
+from . import lexrules as LR
 from . import piperules as PR
 from .common import TRUSTED, Ctx
 
@@ -7,6 +8,7 @@ from .common import TRUSTED, Ctx
 def check(rep):
     ctx = Ctx(rep)
     ER.rule_codec_total(ctx)
+    LR.rule_literal_action_total(ctx)
     ER.rule_random_guarded(ctx, rid="C15.KEY-NEVER-RANDOM")
     PR.rule_compiles(ctx, rid="C15.SHAPE-COMPILES", strict=False)
     PR.rule_key(ctx, rid="C15.STR-ONLY", mode="str-only")
